@@ -101,12 +101,18 @@ def run(ctx):
             elif an == 'add_url' and call.args and f.qual != SES + ':ItemSession.add_child_url' \
                     and isinstance(call.func, ast.Attribute) and 'session' in norm_text(call.func.value).lower():
                 url_arg = call.args[0]
+            elif an == 'add_one' and call.args and 'table' in norm_text(call.func.value).lower():
+                url_arg = call.args[0]
             if url_arg is None:
                 continue
             sites += 1
             defs = defs or U.local_defs(f.node)
             ok = False
             why = norm_text(url_arg)
+            if isinstance(url_arg, ast.Attribute) and url_arg.attr == 'url' and isinstance(url_arg.value, ast.Attribute) \
+                    and url_arg.value.attr == 'url_info':
+                # `<request>.url_info.url`: the request's parsed form (Request.url itself is the caller's spelling)
+                ok = True
             if isinstance(url_arg, ast.Attribute) and url_arg.attr == 'url' and isinstance(url_arg.value, ast.Name):
                 name = url_arg.value.id
                 srcs = [v for v, k, s in defs.get(name, []) if k != 'param']
@@ -141,8 +147,8 @@ def run(ctx):
             ck.expect(ok, 'C01-D2', f.qual, '%s(%s, ...): URL is .url of a parsed URLInfo' % (an or 'AddURLInfo', why),
                       'the URL stored in the table (%s) is not the normalised spelling of a parsed URL: differently spelled '
                       'links to one page become separate rows and are fetched more than once' % why, f.loc(call))
-    if sites < 5:
-        ck.bad('C01-D2', 'wpull', 'URL-adding call sites', 'only %d URL-adding call sites found (expected >= 5)' % sites)
+    if sites < 6:
+        ck.bad('C01-D2', 'wpull', 'URL-adding call sites', 'only %d URL-adding call sites found (expected >= 6)' % sites)
     child_record_rules(ctx, 'C01-D2')
     # every scraped link that parses and passes the filters is queued (nothing else decides)
     ps = repo.func(RULE + ':ProcessingRule._process_scrape_info')
